@@ -90,6 +90,41 @@ func broadcastPoints(fn *ssa.Function, depth int) map[ssa.Instruction]bool {
 	return pts
 }
 
+// pointLocked: the broadcast point runs with rateLk held exclusively — held at
+// the point itself, or (for a call to an always-broadcasting helper) taken by
+// the helper around its own test-and-close.
+func pointLocked(fn *ssa.Function, p ssa.Instruction) bool {
+	held := deepLockAt(fn, p)
+	if held[rateLk] == modeW {
+		return true
+	}
+	c, ok := p.(*ssa.Call)
+	if !ok {
+		return false
+	}
+	h := c.Call.StaticCallee()
+	if h == nil || h.Blocks == nil {
+		return false
+	}
+	hfi := lockFlow(h, held)
+	tests := broadcastTests(h)
+	if len(tests) == 0 {
+		// the helper delegates further
+		for pp := range broadcastPoints(h, 1) {
+			if !pointLocked(h, pp) {
+				return false
+			}
+		}
+		return true
+	}
+	for _, t := range tests {
+		if hfi.at[t][rateLk] != modeW {
+			return false
+		}
+	}
+	return true
+}
+
 func ruleNotify(r *Report) {
 	const rule = "notify"
 	fn := r.need(rule, "S", "(*Store).Flush")
@@ -101,9 +136,8 @@ func ruleNotify(r *Report) {
 		r.Bad(rule, "(*Store).Flush/broadcast-point", fn.Pos(), "Store.Flush contains no point that closes Store.flushNotice when it is non-nil: rate-limited writers are never released")
 		return
 	}
-	fi := lockFlow(fn, LockSet{})
 	for p := range pts {
-		r.Check(fi.at[p][rateLk] == modeW, rule, "(*Store).Flush/broadcast-under-rateLk", instrPos(p), "the notification channel is tested and closed with rateLk held exclusively", "the notification channel is tested/closed without holding rateLk exclusively: a writer registering concurrently can be missed or the channel closed twice")
+		r.Check(pointLocked(fn, p), rule, "(*Store).Flush/broadcast-under-rateLk", instrPos(p), "the notification channel is tested and closed with rateLk held exclusively", "the notification channel is tested/closed without holding rateLk exclusively: a writer registering concurrently can be missed or the channel closed twice")
 	}
 	success, _ := classifyReturns(fn)
 	n := 0
@@ -173,27 +207,30 @@ func ruleWaitProtocol(r *Report) {
 	if fn == nil {
 		return
 	}
-	fi := lockFlow(fn, LockSet{})
-	// the receive that waits for the flush
-	var recvs []*ssa.UnOp
-	eachInstr(fn, func(in ssa.Instruction) {
-		if u, ok := in.(*ssa.UnOp); ok && u.Op == token.ARROW {
-			recvs = append(recvs, u)
+	// the receive that waits for the flush (in flushTick or a helper of it)
+	type wait struct {
+		recv  *ssa.UnOp
+		loads []*ssa.UnOp
+	}
+	var waits []wait
+	deepEach(fn, func(f *ssa.Function, in ssa.Instruction) {
+		u, ok := in.(*ssa.UnOp)
+		if !ok || u.Op != token.ARROW {
+			return
+		}
+		if lds := fieldValueLoads(u.X, "Store.flushNotice"); len(lds) > 0 {
+			waits = append(waits, wait{u, lds})
+		} else if derives(u.X, flowOpts{Returns: true}, isFieldLoad("Store.flushNotice")) {
+			waits = append(waits, wait{u, nil})
 		}
 	})
-	var waits []*ssa.UnOp
-	for _, u := range recvs {
-		if derives(u.X, flowOpts{}, isFieldLoad("Store.flushNotice")) {
-			waits = append(waits, u)
-		}
-	}
 	if len(waits) == 0 {
 		r.Bad(rule, "flushTick/wait", fn.Pos(), "flushTick never waits on Store.flushNotice: back-pressure is gone (not a lost wake-up, but the protocol this rule checks is absent)")
 		return
 	}
 	// non-blocking signal
 	var signals []ssa.Instruction
-	eachInstr(fn, func(in ssa.Instruction) {
+	deepEach(fn, func(f *ssa.Function, in ssa.Instruction) {
 		switch x := in.(type) {
 		case *ssa.Select:
 			for _, st := range x.States {
@@ -212,26 +249,34 @@ func ruleWaitProtocol(r *Report) {
 	if len(signals) == 0 {
 		r.Bad(rule, "flushTick/signal", fn.Pos(), "flushTick does not signal flushNow before waiting: nothing guarantees a flush will happen for the waiter")
 	}
-	for _, w := range waits {
-		ld, isLoad := w.X.(*ssa.UnOp)
-		underLock := isLoad && ld.Op == token.MUL && fi.at[ld][rateLk] == modeW
+	for _, wt := range waits {
+		w := wt.recv
+		underLock := len(wt.loads) > 0
+		for _, ld := range wt.loads {
+			if deepLockAt(fn, ld)[rateLk] != modeW {
+				underLock = false
+			}
+		}
 		r.Check(underLock, rule, "flushTick/wait-on-registered-channel", instrPos(w), "the channel waited on is the value loaded under rateLk in the registration section (not a re-read of the field)",
 			"the channel waited on was not loaded under rateLk in the registration section: re-reading the field after unlocking can see nil (blocks forever) or a newer channel than the one a concurrent flush closed")
-		_, holds := fi.at[w][rateLk]
+		_, holds := deepLockAt(fn, w)[rateLk]
 		r.Check(!holds, rule, "flushTick/wait-without-lock", instrPos(w), "rateLk is not held while waiting", "flushTick waits while holding rateLk: Flush needs rateLk to close the channel — deadlock")
-		// create-if-nil happens in the same section: every store to flushNotice here is under rateLk W
-		for _, st := range fieldStores(fn, "Store.flushNotice") {
-			r.Check(fi.at[st][rateLk] == modeW, rule, "flushTick/create-under-rateLk", instrPos(st), "the channel is created under rateLk", "the notification channel is created without rateLk held exclusively")
-			// and the load used for waiting follows the store without unlocking in between
-			if isLoad {
+		// create-if-nil happens in the same section
+		for _, st := range deepFieldStores(fn, "Store.flushNotice") {
+			r.Check(deepLockAt(fn, st)[rateLk] == modeW, rule, "flushTick/create-under-rateLk", instrPos(st), "the channel is created under rateLk", "the notification channel is created without rateLk held exclusively")
+			for _, ld := range wt.loads {
+				if ld.Parent() != st.Parent() {
+					continue
+				}
+				f := st.Parent()
 				hit := false
-				for _, c := range allCalls(fn) {
+				for _, c := range allCalls(f) {
 					if _, isDefer := c.(*ssa.Defer); isDefer {
 						continue
 					}
 					if op, id, ok := lockOp(c); ok && op == "Unlock" && id == rateLk {
-						a, _ := Search{Fn: fn, From: st, Target: isInstr(c), Avoid: isInstr(ld)}.Run()
-						b, _ := Search{Fn: fn, From: c, Target: isInstr(ld)}.Run()
+						a, _ := Search{Fn: f, From: st, Target: isInstr(c), Avoid: isInstr(ld)}.Run()
+						b, _ := Search{Fn: f, From: c, Target: isInstr(ld)}.Run()
 						if a && b {
 							hit = true
 						}
@@ -240,14 +285,14 @@ func ruleWaitProtocol(r *Report) {
 				r.Check(!hit, rule, "flushTick/create-and-load-one-section", instrPos(st), "create-if-nil and the load happen in one rateLk section", "rateLk is released between creating the channel and loading it: a flush in between closes and clears it, the writer then waits on nil forever")
 			}
 		}
-		// order: register (load) ≺ signal ≺ wait
-		for _, s := range signals {
-			if isLoad {
-				ok, path := precededBy(fn, s, map[ssa.Instruction]bool{ld: true}, nil)
+		// order: register (load) before signal before wait
+		for _, sg := range signals {
+			if len(wt.loads) > 0 {
+				ok, path := precededBy(fn, sg, instrSet(wt.loads), nil)
 				if ok {
-					r.Ok(rule, "flushTick/register-before-signal", instrPos(s), "the writer registers for notification before it triggers the flush")
+					r.Ok(rule, "flushTick/register-before-signal", instrPos(sg), "the writer registers for notification before it triggers the flush")
 				} else {
-					r.BadPath(rule, "flushTick/register-before-signal", instrPos(s), "the flush is triggered before the writer registered for notification: the flush can complete (and broadcast to nobody) before the registration, and nothing triggers another one", path)
+					r.BadPath(rule, "flushTick/register-before-signal", instrPos(sg), "the flush is triggered before the writer registered for notification: the flush can complete (and broadcast to nobody) before the registration, and nothing triggers another one", path)
 				}
 			}
 		}
@@ -300,7 +345,7 @@ func ruleFlusher(r *Report) {
 			}
 			return false, false
 		})
-		flushes := callSites(fn, "(*store.Store).Flush")
+		flushes := deepCallSites(fn, "(*store.Store).Flush")
 		if len(flushes) == 0 {
 			r.Bad(rule, "run/flushNow-calls-Flush", instrPos(sel), "the flusher never calls Store.Flush")
 		}
@@ -325,7 +370,7 @@ func ruleFlusher(r *Report) {
 		}
 	}
 	// sends on flushNow inside run are non-blocking
-	eachInstr(fn, func(in ssa.Instruction) {
+	deepEach(fn, func(_ *ssa.Function, in ssa.Instruction) {
 		switch x := in.(type) {
 		case *ssa.Send:
 			if fieldOfLoad(x.Chan) == "Store.flushNow" {
@@ -363,6 +408,8 @@ func init() {
 		ruleNotifyReset(r)
 		ruleWaitProtocol(r)
 		ruleFlusher(r)
+		// the hand-shake fields are shared between writers and the flusher
+		r.support([]string{"race"})
 	},
 		"Decides the shape of the back-pressure protocol, each rule a necessary condition of 'no lost wake-up', not freedom from lost wake-ups over all schedules (a model-checking question): every successful return of Store.Flush passes the broadcast point (test-and-close of flushNotice under rateLk, directly or through a helper all of whose paths do); close is followed by flushNotice=nil before the lock is released; flushTick creates-if-nil and loads the channel in one exclusive rateLk section, waits on that loaded value without holding the lock, signals flushNow with a non-blocking send after registering and before waiting; the flusher serves every flushNow signal with a Flush, only ever sends to flushNow non-blockingly, and flushNow is buffered. Not covered: fairness/progress under all interleavings, waiters when a flush fails or when Close races a waiter.",
 		"the statement excludes failing flushes; only success returns of Flush are obliged to broadcast")
